@@ -2,9 +2,11 @@
 """Implementation runner for C16 (scippneutron.peaks.model), runs in /venv with PYTHONPATH=<repo>/src.
 
 stdin : {"groups": [GROUP]}
-  GROUP  = {"id":..., "what": "call"|"fwhm"|"construct", "model": MODEL, "x": VAR?, "params": {name: VAR}}
-  MODEL  = {"kind": "gauss"|"lorentz"|"pvoigt"|"poly", "prefix": str, "degree": int?, "via": "ctor"|"with_prefix"}
-         | {"kind": "comp", "prefix": str, "left": MODEL, "right": MODEL, "via": "ctor"|"add"}
+  GROUP  = {"id":..., "what": "call"|"fwhm"|"construct"|"names"|"bounds"|"guess", "model": MODEL, "x": VAR?,
+            "y": VAR? (guess), "params": {name: VAR}}
+  MODEL  = {"kind": "gauss"|"lorentz"|"pvoigt"|"poly", "prefix": final prefix, "ctor": constructor prefix,
+            "chain": [prefixes passed to successive .with_prefix calls], "degree": int?}
+         | {"kind": "comp", ..., "left": MODEL, "right": MODEL, "via": "ctor"|"add"}
   VAR    = {"values": [hex floats | ints], "unit": [[unit name, power], ...], "dtype": "float64|float32|int64",
             "dim": "x" | null}
 stdout: 'RESULT <json>': per group the operands as stored (exact rationals, unit multiplier and base powers)
@@ -48,19 +50,20 @@ LEAF = {'gauss': M.GaussianModel, 'lorentz': M.LorentzianModel, 'pvoigt': M.Pseu
 
 
 def build(m):
+    """constructed with prefix m['ctor'] (or, for via='add', by left + right), then re-prefixed by every
+    entry of m['chain'] in turn; the final prefix is m['prefix']"""
     k = m['kind']
+    first = m.get('ctor', m['prefix'])
     if k == 'comp':
         left, right = build(m['left']), build(m['right'])
-        if m.get('via') == 'add':
-            return (left + right).with_prefix(m['prefix'])
-        return M.CompositeModel(left, right, prefix=m['prefix'])
-    if k == 'poly':
-        if m.get('via') == 'with_prefix':
-            return M.PolynomialModel(degree=m['degree']).with_prefix(m['prefix'])
-        return M.PolynomialModel(degree=m['degree'], prefix=m['prefix'])
-    if m.get('via') == 'with_prefix':
-        return LEAF[k]().with_prefix(m['prefix'])
-    return LEAF[k](prefix=m['prefix'])
+        obj = (left + right) if m.get('via') == 'add' else M.CompositeModel(left, right, prefix=first)
+    elif k == 'poly':
+        obj = M.PolynomialModel(degree=m['degree'], prefix=first)
+    else:
+        obj = LEAF[k](prefix=first)
+    for p in m.get('chain', []):
+        obj = obj.with_prefix(p)
+    return obj
 
 
 def describe(r):
@@ -93,7 +96,22 @@ def main():
             out.append(res)
             continue
         res['param_names'] = sorted(model.param_names)
-        if g['what'] == 'construct':
+        if g['what'] in ('construct', 'names'):
+            out.append(res)
+            continue
+        if g['what'] in ('bounds', 'guess'):
+            try:
+                if g['what'] == 'bounds':
+                    b = model.param_bounds
+                    res['keys'] = sorted(b)
+                    res['bounds'] = {k: [float(v[0]), float(v[1])] for k, v in b.items()}
+                else:
+                    y = mk_var(g['y'])
+                    da = sc.DataArray(y, coords={y.dim: x})
+                    res['keys'] = sorted(model.guess(da))
+            except Exception as ex:
+                res['error'] = type(ex).__name__
+                res['error_text'] = str(ex)[:200]
             out.append(res)
             continue
         snap = {k: v.copy() for k, v in params.items()}
